@@ -1,4 +1,5 @@
 import LncModel.Props.C12
+import LncModel.Props.C12Sys
 import LncModel.Control
 import LncModel.Facts.Generated
 /- C12 instantiated on the shutdown facts regenerated from /repo. -/
@@ -42,6 +43,22 @@ theorem close_terminates_this_tree : waitReturns facts = true := by decide
 theorem close_terminates_every_config (c : Config) (hc : ∀ p ∈ c, p ∈ facts.blocking) :
     stillBlocked facts c = [] :=
   Lnc.Props.C12.close_terminates facts close_terminates_this_tree c hc
+
+/-- **the table of this tree is `Ready`**: Close waits, it closes `quit` before it
+    waits, and every blocking point of the loops is released by the signals
+    raised before the wait — the hypothesis of `no_deadlock`, `move_decreases`,
+    `run_bounded` and `returned_means_all_done` (Props/C12Sys.lean) -/
+theorem close_system_ready : Ready facts = true := by decide
+
+/-- hence, for this tree: under every scheduler Close cannot deadlock, and when it
+    has returned both loop goroutines have returned -/
+theorem close_returns_this_tree (σ σ' : CSt) (ms : List Move) (hstart : Lnc.Props.C12.Start facts σ)
+    (hrun : crun facts σ ms = some σ') :
+    (σ'.final facts = false → ∃ m, (cstep facts σ' m).isSome = true) ∧
+    (σ'.final facts = true → σ'.allDone = true) :=
+  ⟨Lnc.Props.C12.no_deadlock facts close_system_ready σ'
+     (Lnc.Props.C12.wf_run facts close_system_ready ms σ σ' (Lnc.Props.C12.wf_start facts σ hstart) hrun),
+   Lnc.Props.C12.returned_means_all_done facts close_system_ready σ σ' ms hstart hrun⟩
 
 /-- Close is wrapped in sync.Once; the two loops are the only goroutines start() spawns;
     the goroutine spawned by the syncer exits on the queue's quit channel or its own timer -/
